@@ -374,6 +374,13 @@ func init() {
 	add("C15", ruleR05_1)
 	add("C17", ruleR18_2, ruleR18_3)
 	add("C06", ruleR15_8)
+	// round 11
+	add("C17", ruleR17_15)
+	add("C12", ruleR12_13)
+	add("C13", ruleR13_10)
+	add("C14", ruleR14_10)
+	add("C01", ruleR14_10)
+	add("C05", ruleR06_4)
 	add("C15", ruleR15_8)
 	add("C12", ruleR06_1full) // "all log invariants hold" under overlapping requests: the numbering of the accepted operations
 	add("C20", ruleR12_3)     // a realtime client's overlapping push-pulls are told apart by the server's per-datatype lock alone
